@@ -311,7 +311,7 @@ func (vfs *MemFS) Lchown(name string, uid, gid int) error {
 		return &fs.PathError{Op: op, Path: name, Err: vfs.err.OpNotPermitted}
 	}
 
-	_, child, _, err := vfs.searchNode(name, slmLstat)
+	_, child, _, err := vfs.searchNode(name, vfs.lstatMode(name))
 	if err != vfs.err.FileExists || child == nil {
 		return &fs.PathError{Op: op, Path: name, Err: err}
 	}
@@ -399,13 +399,7 @@ func (vfs *MemFS) Lstat(path string) (fs.FileInfo, error) {
 		op = "CreateFile"
 	}
 
-	slm := slmLstat
-	if len(path) > 1 && vfs.IsPathSeparator(path[len(path)-1]) {
-		// a final symbolic link followed by a separator is followed.
-		slm = slmStat
-	}
-
-	_, child, _, err := vfs.searchNode(path, slm)
+	_, child, _, err := vfs.searchNode(path, vfs.lstatMode(path))
 	if err != vfs.err.FileExists || child == nil {
 		return nil, &fs.PathError{Op: op, Path: path, Err: err}
 	}
@@ -722,7 +716,7 @@ func (vfs *MemFS) ReadFile(name string) ([]byte, error) {
 func (vfs *MemFS) Readlink(name string) (string, error) {
 	const op = "readlink"
 
-	_, child, _, err := vfs.searchNode(name, slmLstat)
+	_, child, _, err := vfs.searchNode(name, vfs.lstatMode(name))
 	if err != vfs.err.FileExists {
 		return "", &fs.PathError{Op: op, Path: name, Err: err}
 	}
@@ -829,7 +823,13 @@ func (vfs *MemFS) RemoveAll(path string) error {
 		return nil
 	}
 
-	parent, child, pi, err := vfs.searchNode(path, slmLstat)
+	// separators after the name are ignored (see os.RemoveAll).
+	searchPath := path
+	for len(searchPath) > 1 && vfs.IsPathSeparator(searchPath[len(searchPath)-1]) {
+		searchPath = searchPath[:len(searchPath)-1]
+	}
+
+	parent, child, pi, err := vfs.searchNode(searchPath, slmLstat)
 	if vfs.isNotExist(err) {
 		return nil
 	}
